@@ -94,10 +94,13 @@ CLAIMED = {
        "xi in order (map_pulls, filter_pulls) and `$]` of it is that array (map_collect, filter_collect); `it ? T` likewise yields exactly the elements "
        "whose run-time type is below T, unchanged and in order (tfilter_pulls, TFLoop.matches); `it $ init g` is foldl of the function the callback "
        "computes and `it \\ p` is (filter q, filter (not q)) in source order, for sources of any length (reduce_fn_spec, reduce_run, partition_spec). "
+       "THE ARRAY ITERATOR (Thm/C11Iter): the closure text of iter.rs with its cursor cell - from a cursor holding j-1 the iterator yields a[j], a[j+1], .. to the end, "
+       "each once, in order, then exhaustion, for every array shorter than 2^63 (iter_pulls; wrap-around, signed comparison and index normalisation discharged by the C08 "
+       "operator theorems); `e~ $]` evaluates to the array e evaluates to (iter_then_collect); end to end, `a~ @ g $]` is map g a and `a~ ? p $]` is filter p a for callbacks computing g / p (iter_map_collect, iter_filter_collect). "
        "Tied to the implementation by operator pipelines over array-derived and user-written sources with logging callbacks, "
        "compared three ways: implementation, Spec, and an independent Python simulation of list semantics (value and log).",
-  note=SPEC_NOTE + " `Yields (a~) a` for the array iterator is exercised by the stream, not yet proved.",
-  technique="Lean 4 proof over a reference semantics (consumers as folds of any pull sequence; map, filter and type-filter closures yield the mapped / accepted elements for runs of any length; reduce and partition as list functions) + differential pipelines + list-semantics oracle", ref="DESIGN.md §6 C11"),
+  note=SPEC_NOTE + " The three closure texts and the array iterator are proved for runs of any length; chains are composed step by step (two chain theorems), not by one general composition theorem.",
+  technique="Lean 4 proof over a reference semantics (consumers as folds of any pull sequence; the array iterator enumerates its array; map, filter and type-filter closures yield the mapped / accepted elements for runs of any length; reduce and partition as list functions) + differential pipelines + list-semantics oracle", ref="DESIGN.md §6 C11"),
  "C12": dict(
   text="Lean 4 theorems about Spec: a function call never lets break / continue / return escape (all other signals pass), turns "
        "`return v` of its body into its value and falling off the end into (); loop bodies catch break / continue and propagate "
@@ -113,7 +116,10 @@ CLAIMED = {
   text="Lean 4 theorems about the store of Spec: `mut` allocates a location different from all existing ones holding the initial "
        "value and changes no other cell; read-after-write, writes leave other locations unchanged; `*` reads the location whatever "
        "copy of the cell value is used; `c = v` stores and yields v; `c op= v` reads the content after v was evaluated, stores and "
-       "yields the result, and leaves the cell unchanged when op fails; the 11 compound operators are their base operators. Tied to "
+       "yields the result, and leaves the cell unchanged when op fails; the 11 compound operators are their base operators. HISTORIES "
+       "(Thm/C13Hist): the store driven by `mut` / writes through any copies refines the abstract map location -> last value written, for "
+       "every operation sequence (run_refines); a read through any copy returns the last value written through any copy, or the initial "
+       "one (read_last_write); writes never change the number of cells, `mut` never reuses a location (run_size, alloc_fresh). Tied to "
        "the implementation by random assignment/read histories over aliasing graphs (arrays, structs, tuples, closures, cells of "
        "cells, parameters; unions and any) compared with Spec, plus a recursive content-in-declared-type walk over the result. "
        "TYPED CONTENT (Thm/C01StD, shared with C01): for every program the checker model with cells and loops (Model/CheckS: `mut T e`, `*c`, "
